@@ -386,8 +386,126 @@ def rule_matrix_writers(chk, prog):
                                                 "a path through the constructor ends without computePathLengths (%s): D and G are whatever that path left" % (esc,))
 
 
+def rule_neighbour_matrix(chk, prog):
+    from ..microai.interp import Oracle, default_obj
+    r = chk.rule("NEIGHBOUR-FLAGS", "ConstrainedFDLayout::computeNeighbours interpreted on multigraphs (parallel edges in both orientations, a "
+                 "self-loop, an isolated node): every entry of `neighbours` is 0 or 1, and 1 exactly for the adjacent pairs -- the stress and "
+                 "force loops skip a pair unless its entry EQUALS 1, so an edge count would drop every doubled edge from the neighbour stress", floor=2)
+    fn = prog.fn("cola::ConstrainedFDLayout::computeNeighbours")
+    cases = [("doubled and reversed edges, self-loop", 4, [(0, 1), (1, 0), (0, 1), (2, 2), (1, 3)]),
+             ("path and an isolated node", 4, [(0, 1), (1, 2)])]
+    for name, n, edges in cases:
+        r.count()
+        this = default_obj(prog, "cola::ConstrainedFDLayout", {"n": n, "neighbours": Vec([], "std::vector<unsigned int>")})
+        it = Interp(prog, Oracle([]), max_steps=200000)
+        bad = None
+        try:
+            it.call(fn, this, None, None, arg_values=[Vec([pair(u, v) for u, v in edges], "std::pair<unsigned int, unsigned int>")])
+        except Unsupported as e:
+            raise AnalysisBroken("computeNeighbours outside the interpreter subset: %s" % e)
+        except AssertFail as e:
+            bad = "assertion fails: %s" % e
+        if not bad:
+            rows = this.f["neighbours"].items
+            adj = {(u, v) for u, v in edges} | {(v, u) for u, v in edges}
+            if len(rows) != n or any(len(row.items) != n for row in rows):
+                bad = "the matrix is not %d x %d" % (n, n)
+            else:
+                for i in range(n):
+                    for j in range(n):
+                        want = 1 if (i, j) in adj else 0
+                        if rows[i].items[j] != want:
+                            bad = bad or "neighbours[%d][%d] is %s, expected %d" % (i, j, rows[i].items[j], want)
+        (r.bad if bad else r.ok)("computeNeighbours on %s" % name, fn.where(), bad or "")
+    # the readers compare with 1
+    readers = 0
+    for f in prog.all_functions():
+        if not f.q.startswith("cola::ConstrainedFDLayout::"):
+            continue
+        for nd in f.nodes():
+            if nd.get("k") == "BinaryOperator" and nd.get("op") in ("!=", "==") and "neighbours[" in norm_(nd):
+                readers += 1
+    if readers < 2:
+        raise AnalysisBroken("the readers of `neighbours` (comparisons with 1) were not found")
+
+
+def norm_(n):
+    from ..astq import norm
+    return norm(n)
+
+
+def rule_majorization_lengths(chk, prog):
+    from ..astq import calls, call_args
+    from ..facts import walk
+    from ..microai.interp import Oracle, default_obj
+    r = chk.rule("MAJORIZATION-LENGTHS", "ConstrainedMajorizationLayout's constructor, the statements from the declaration of the length array it "
+                 "hands to shortest_paths::johnsons up to that call, interpreted as a fragment with the caller's lengths (2, 0, -3) on a "
+                 "triangle: the array the all-pairs routine receives is (2, 1, 1) -- non-positive lengths replaced by 1 IN the array that is "
+                 "used -- and with neighbour stress the entries of D for the three edges are the same corrected lengths", floor=2)
+    fns = [f for f in prog.fns("cola::ConstrainedMajorizationLayout::ConstrainedMajorizationLayout") if f.body]
+    if len(fns) != 1:
+        raise AnalysisBroken("ConstrainedMajorizationLayout constructor not found")
+    fn = fns[0]
+    js = [c for c in calls(fn) if (c.get("cname") or "").startswith("shortest_paths::johnsons")]
+    if len(js) != 1:
+        raise AnalysisBroken("the call of shortest_paths::johnsons in the constructor was not found")
+    tops = fn.body["ch"]
+    idx = [i for i, t in enumerate(tops) if any(x is js[0] for x in walk(t))]
+    refs = [x for x in walk(call_args(js[0])[3]) if x.get("k") == "DeclRefExpr"]
+    if not idx or not refs:
+        raise AnalysisBroken("johnsons call: statement / length argument not found")
+    di = [i for i, t in enumerate(tops) if t.get("k") == "DeclStmt" and any(x.get("k") == "VarDecl" and x.get("did") == refs[0].get("did") for x in walk(t))]
+    pd = {p_["name"]: p_["did"] for p_ in fn.params}
+    if not {"eLengths", "es", "useNeighbourStress"} <= set(pd):
+        raise AnalysisBroken("constructor parameters renamed: %s" % sorted(pd))
+    start = di[0] if di else 0            # (a parameter handed on directly: start at the top of the fragment that mentions it)
+    if not di:
+        ment = [i for i, t in enumerate(tops) if any(x.get("k") == "DeclRefExpr" and x.get("did") == refs[0].get("did") for x in walk(t))]
+        start = ment[0]
+    dd = [d for d in fn.nodes() if d.get("k") == "VarDecl" and d.get("name") == "D"]
+    if not dd:
+        raise AnalysisBroken("local D not found")
+    F = Fraction
+    edges = [(0, 1), (1, 2), (0, 2)]
+    for stress in (False, True):
+        r.count()
+        got = {}
+
+        def hook(it_, n, env):
+            got["lens"] = [x for x in it_.ev(call_args(n)[3], env).items]
+            return None
+        it = Interp(prog, Oracle([]), hooks={js[0]["cname"]: hook, "fprintf": lambda it_, n, env: None}, max_steps=200000)
+        D = Vec([Vec([F(0)] * 3) for _ in range(3)])
+        env = {pd["eLengths"]: Box(Vec([F(2), F(0), F(-3)], "double")),
+               pd["es"]: Box(Vec([pair(u, v) for u, v in edges], "std::pair<unsigned int, unsigned int>")),
+               pd["useNeighbourStress"]: Box(stress), "this": default_obj(prog, "cola::ConstrainedMajorizationLayout", {"n": 3}),
+               dd[0]["did"]: Box(D)}
+        bad = None
+        try:
+            for t in tops[start:idx[0] + 1]:
+                it.ex(t, env)
+        except Unsupported as e:
+            raise AnalysisBroken("constructor fragment outside the interpreter subset: %s" % e)
+        except AssertFail as e:
+            bad = "assertion fails: %s" % e
+        want = [F(2), F(1), F(1)]
+        if not bad and not stress:
+            if "lens" not in got:
+                bad = "johnsons is not reached without neighbour stress"
+            elif [F(x) for x in got["lens"]] != want:
+                bad = "johnsons receives the lengths %s for the caller's (2, 0, -3); expected (2, 1, 1)" % ([str(x) for x in got["lens"]],)
+        if not bad and stress:
+            for (u, v), w in zip(edges, want):
+                for a, b in ((u, v), (v, u)):
+                    if F(D.items[a].items[b]) != w:
+                        bad = bad or "with neighbour stress D[%d][%d] = %s, expected the corrected length %s" % (a, b, D.items[a].items[b], w)
+        (r.bad if bad else r.ok)("lengths (2, 0, -3), %s" % ("neighbour stress" if stress else "all-pairs"), fn.loc(js[0]), bad or "")
+
+
 def run(chk):
     prog = chk.load()
+    chk.guard(rule_neighbour_matrix, chk, prog)
+    chk.guard(rule_majorization_lengths, chk, prog)
     chk.guard(rule_all_pairs, chk, prog)
     chk.guard(rule_path_lengths, chk, prog)
     chk.guard(rule_matrix_writers, chk, prog)
